@@ -2,7 +2,7 @@
 from checks import symgen, refqr, refmicro, refrmqr
 
 ID = 'C02'
-PROP_MODULES = ['QRV.Props.C02', 'QRV.Props.C02Symbol']
+PROP_MODULES = ['QRV.Props.C02', 'QRV.Props.C02Symbol', 'QRV.Props.C02SymbolMicro']
 RULE = ('every (version, level) pair of the three symbologies with every explicit mask (rotating in the quick tier) and automatic masking x the structured segment lists of C01. '
         'The implementation\'s bitmap is compared module for module with an independently written reference encoder (checks/refqr.py, refmicro.py, refrmqr.py: geometry, '
         'tables in compact form, BCH, RS by polynomial division, placement as a declarative list) in either admitted form (Micro QR M1/M3 final half codeword), and '
@@ -15,14 +15,14 @@ TRUSTED = [
 ]
 ASSUMPTIONS = ['rMQR rows of the capacity table are modelled, not verified (necessary conditions only)',
                'module (0, h-2) of the five R9xN rMQR symbols: my recollection of the standard is unsure (corner finder vs separator); both forms admitted']
-PARTIAL = ('QR: conformance of the whole emitted symbol is a theorem (C02Symbol.qr_symbol: module by module equal to the declarative symbol of Spec/Symbol.lean, which is itself compared with the implementation on every run); '
-           'Micro QR / rMQR: table half proved for every version; algorithm half by differential comparison with the reference encoder (rMQR with the recorded findings D15, D18)')
+PARTIAL = ('QR and Micro QR: conformance of the whole emitted symbol is a theorem (qr_symbol / micro_symbol: module by module equal to the declarative symbol of Spec/Symbol*.lean, which is itself compared with the implementation on every run; Micro QR: with the library\'s reading of the 4-bit final pad codeword of M1/M3); '
+           'rMQR: table half proved for every version; algorithm half by differential comparison with the reference encoder and with the evaluated Spec/SymbolRMQR (recorded findings D15, D18)')
 MANIFEST = {
     'technique': 'Lean 4: kernel evaluation of all generated tables against declarative specs (patterns, masks, capacity, BCH, RS generators); for QR the theorem that the emitted bitmap IS the standard\'s symbol of the description (declarative Spec.Symbol: stream, blocks, RS codewords, interleaving, placement order, mask, format/version information, function patterns), with uniqueness; module-for-module comparison with an independent reference encoder/reader for all three symbologies',
     'text': ('QRV/Props/C02.lean proves the table half of conformance for every version of every symbology: all function-pattern bitmaps, mask canvases, capacity rows, BCH words and RS coders '
              'equal declarative specifications written from the standards (kernel evaluation of every cell; a wrong alignment centre, BCH word, capacity row or RS tap breaks a named lemma). '
              'QRV/Props/C02Symbol.lean proves the algorithm half for QR: for every valid description and mask (explicit or automatic) the encoder model emits a regular bitmap whose every module equals the declarative symbol Spec.Symbol.QR.IsSymbol '
-             '(data stream, block shapes of Table 9, Reed-Solomon codeword condition, interleaving, the standard placement order - the model\'s walk is proved to visit exactly dataCoords v -, mask condition, BCH format/version words at their positions, dark module, function patterns), and that this specification determines the symbol uniquely. '
+             '(data stream, block shapes of Table 9, Reed-Solomon codeword condition, interleaving, the standard placement order - the model\'s walk is proved to visit exactly dataCoords v -, mask condition, BCH format/version words at their positions, dark module, function patterns), and that this specification determines the symbol uniquely; Props/C02SymbolMicro.lean proves the same for Micro QR M1-M4 (micro_symbol, micro_symbol_auto, micro_symbol_unique: terminator 3/5/7/9, 4-bit final data codeword of M1/M3, one RS block, four mask patterns, format word XOR 0x4445). '
              'For all three symbologies the algorithm half is also decided per message by comparing the implementation\'s bitmap with an independently written reference encoder and by reading it back with an independent '
              'reference reader, over all configurations and structured payloads, and (QR) by comparing it with the evaluated Spec.Symbol.'),
     'note': ('Trusted: Lean kernel; my transcription of the standards in Spec.* and in the python references (independent of /repo; rMQR EC split/count widths are not independent). '
@@ -152,21 +152,26 @@ def extra(ctx):
     nspec = 0
     out = getattr(ctx, 'c02_out', None)
     if ctx.driver and out:
-        idx = [i for i, (sym, ver, level, mask, segs, label) in enumerate(ctx.c02) if sym == 'qr' and mask >= 0 and out[i].startswith('ok ')]
-        sl = [symgen.enc_line('qr', *ctx.c02[i][1:5]).replace('qr.enc', 'qr.spec', 1) for i in idx]
+        idx = [i for i, (sym, ver, level, mask, segs, label) in enumerate(ctx.c02) if mask >= 0 and out[i].startswith('ok ')]
+        sl = [symgen.enc_line(ctx.c02[i][0], *ctx.c02[i][1:5]).replace('.enc', '.spec', 1) for i in idx]  # rm.spec takes no mask: enc_line omits it
         so = ctx.lean(sl)
         nspec = len(sl)
         bad = 0
         for i, l, o in zip(idx, sl, so):
+            if o != out[i] and ctx.c02[i][0] == 'rm' and o.startswith('ok '):
+                # finding D18 (reported by the oracle above): differences confined to the data modules of column 1
+                A, Bm = refqr.from_image_str(out[i][3:]), refqr.from_image_str(o[3:])
+                if len(A) == len(Bm) and len(A[0]) == len(Bm[0]) and all(A[y][x] == Bm[y][x] for y in range(len(A)) for x in range(len(A[0])) if x != 1):
+                    continue
             if o != out[i]:
                 bad += 1
                 if bad <= 2:
                     sym, ver, level, mask, segs, label = ctx.c02[i]
-                    res.append({'key': 'qr:spec-symbol-mismatch:v%d' % ver, 'lines': [symgen.enc_line('qr', ver, level, mask, segs)], 'expect': o[:120], 'got': out[i][:120],
-                                'detail': 'QR v%d l%d mask %d [%s]: the implementation\'s symbol differs from the declarative symbol of Spec/Symbol.lean (%s)' % (
-                                    ver, level, mask, symgen.show_segs(segs), o[:40] if not o.startswith('ok ') else 'modules differ')})
-        ctx.log('Spec.Symbol vs implementation: %d QR symbols compared, %d differ' % (nspec, bad))
-    return {'violations': res, 'evaluations': n + nspec, 'notes': {'rmqr_count_width_rows_checked': n, 'qr_symbols_compared_with_Spec_Symbol': nspec}}
+                    res.append({'key': '%s:spec-symbol-mismatch:v%d' % (sym, ver), 'lines': [symgen.enc_line(sym, ver, level, mask, segs)], 'expect': o[:120], 'got': out[i][:120],
+                                'detail': '%s v%d l%d mask %d [%s]: the implementation\'s symbol differs from the declarative symbol of Spec/Symbol%s.lean (%s)' % (
+                                    sym, ver, level, mask, symgen.show_segs(segs), {'mq': 'Micro', 'rm': 'RMQR'}.get(sym, ''), o[:40] if not o.startswith('ok ') else 'modules differ')})
+        ctx.log('Spec.Symbol vs implementation: %d QR / Micro QR / rMQR symbols compared, %d differ' % (nspec, bad))
+    return {'violations': res, 'evaluations': n + nspec, 'notes': {'rmqr_count_width_rows_checked': n, 'qr_and_micro_symbols_compared_with_Spec_Symbol': nspec}}
 
 
 def nontrivial(line, out):
